@@ -5,6 +5,8 @@ identical inputs); the static tensor as the long-time limit of the
 time-dependent one; the analytic pure-dephasing solution exp(-i w t - g(t))
 with g(t) from the closed form of the bath's exponentials.
 """
+import math
+
 import numpy
 from hypothesis import strategies as st
 
@@ -72,7 +74,11 @@ def _forms(draw):
 def _limit(draw):
     spec = draw(gens.system_spec(nmin=2, nmax=3, coupled=True, tmin=77, tmax=350, ntmax=200, spread=400, jmax=250,
                                  dipoles=False))
-    return {"kind": "limit", "spec": spec, "as_ops": draw(st.booleans())}
+    # optional bath-memory cut-off (in correlation times; put on the grid and inside the axis by the check) and the
+    # construction route: through the aggregate or with the constructors in the library's own pattern
+    return {"kind": "limit", "spec": spec, "as_ops": draw(st.booleans()),
+            "cutoff_in_cortimes": draw(st.sampled_from([None, None, 0.5, 1, 2, 4])),
+            "route": draw(st.sampled_from(["aggregate", "direct"]))}
 
 
 @st.composite
@@ -173,6 +179,7 @@ def _check_forms(case, ctx):
         return numpy.array(p.propagate(ReducedDensityMatrix(data=rho0.copy()), Nref=nref).data)
     ok1, d1 = guarded(ctx, "propagate", lambda: prop(To, ho), tag + "/op")
     ok2, d2 = guarded(ctx, "propagate", lambda: prop(Tt, ht), tag + "/tensor")
+    tensor_dynamics_ok = ok2
     if ok1 and ok2:
         ctx.close("forms-propagate-identically", d1, d2, rtol=1e-9, scale=max(1.0, float(numpy.max(numpy.abs(d2)))),
                   where=tag, m=m, nref=nref)
@@ -188,6 +195,29 @@ def _check_forms(case, ctx):
                           scale=max(1e-12, float(numpy.max(numpy.abs(Rt[1])))), where=tag)
 
 
+    else:
+        # time-dependent tensor: conversion of the operator form gives the five-index tensor, in every basis
+        oth = SelfAdjointOperator(data=numpy.array(case["other"], dtype=float))
+        ok, _ = guarded(ctx, "convert_2_tensor", lambda: To.convert_2_tensor(), tag)
+        if ok:
+            for bname, bo, bt in (("outside", None, None), ("eigenbasis_of(H)", ho, ht), ("other-basis", oth, oth)):
+                def read(T, b):
+                    if b is None:
+                        return numpy.array(T.data)
+                    with qr.eigenbasis_of(b):
+                        return numpy.array(T.data)
+                ok1, a = guarded(ctx, "read", lambda: read(To, bo), tag + "/converted", basis=bname)
+                ok2, b = guarded(ctx, "read", lambda: read(Tt, bt), tag + "/tensor", basis=bname)
+                if ok1 and ok2:
+                    ctx.close("conversion-equals-tensor", a, b, rtol=1e-9, scale=max(1e-12, float(numpy.max(numpy.abs(b)))),
+                              where=tag, basis=bname)
+            # and the same dynamics after the conversion
+            ok4, d3 = guarded(ctx, "propagate", lambda: prop(To, ho), tag + "/converted")
+            if ok4 and tensor_dynamics_ok:
+                ctx.close("forms-propagate-identically", d3, d2, rtol=1e-9, scale=max(1.0, float(numpy.max(numpy.abs(d2)))),
+                          where=tag + "/after-conversion", m=m, nref=nref)
+
+
 def _check_limit(case, ctx):
     import quantarhei as qr
     spec = case["spec"]
@@ -195,19 +225,40 @@ def _check_limit(case, ctx):
     ctx.label("limit")
     ctx.mark_nontrivial(True)
 
+    t0, nt, dt = spec["time"]
+    cutoff = None
+    if case.get("cutoff_in_cortimes"):
+        cutoff = dt * math.floor(case["cutoff_in_cortimes"] * max(b["cortime"] for b in spec["bath"]) / dt)
+        if cutoff > (int(nt) - 2) * dt or cutoff < 4 * dt:
+            cutoff = None
+    route = case.get("route", "aggregate")
+    tag = tag + ("/cutoff" if cutoff is not None else "") + "/" + route
+    ctx.label("limit:" + route, "cutoff" if cutoff is not None else "no-cutoff")
+
     def build():
-        t0, nt, dt = spec["time"]
+        from quantarhei.qm import RedfieldRelaxationTensor, TDRedfieldRelaxationTensor
         ta = qr.TimeAxis(t0, int(nt), dt)
-        a1 = gens.make_aggregate(qr, spec)
-        TD, h1 = a1.get_RelaxationTensor(ta, relaxation_theory="standard_Redfield", time_dependent=True,
-                                         as_operators=case["as_ops"])
-        a2 = gens.make_aggregate(qr, spec)
-        ST, h2 = a2.get_RelaxationTensor(ta, relaxation_theory="standard_Redfield", time_dependent=False,
-                                         as_operators=case["as_ops"])
-        if case["as_ops"]:
-            TD.convert_2_tensor()
-            ST.convert_2_tensor()
-        return numpy.array(TD.data), numpy.array(ST.data)
+        out = []
+        for td in (True, False):
+            agg = gens.make_aggregate(qr, spec)
+            if route == "aggregate":
+                kw = {} if cutoff is None else {"relaxation_cutoff_time": cutoff}
+                RT, _ = agg.get_RelaxationTensor(ta, relaxation_theory="standard_Redfield", time_dependent=td,
+                                                 as_operators=case["as_ops"], **kw)
+            else:
+                kw = {} if cutoff is None else {"cutoff_time": cutoff}
+                ham, sbi = agg.get_Hamiltonian(), agg.get_SystemBathInteraction()
+                ham.protect_basis()
+                try:
+                    with qr.eigenbasis_of(ham):
+                        RT = (TDRedfieldRelaxationTensor if td else RedfieldRelaxationTensor)(
+                            ham, sbi, as_operators=case["as_ops"], **kw)
+                finally:
+                    ham.unprotect_basis()
+            if case["as_ops"]:
+                RT.convert_2_tensor()
+            out.append(numpy.array(RT.data))
+        return out
     ok, r = guarded(ctx, "construct", build, tag)
     if not ok:
         return
